@@ -11,6 +11,7 @@ import (
 	"verif/mc/drive"
 	"verif/mc/engine"
 	"verif/mc/refcfg"
+	"verif/mc/refx509"
 	"verif/mc/simfs"
 )
 
@@ -29,9 +30,22 @@ type c13Base struct {
 	Prof *refcfg.ProfileCfg
 	// KeyFix: the entity's existing key ("" = P-256-0)
 	KeyFix string
+	// Request: the entity's file holds a certificate request made from that key instead of the key
+	Request bool
 }
 
 func (b c13Base) keyPEM() []byte {
+	if b.Request {
+		fix := b.KeyFix
+		if fix == "" {
+			fix = "P-256-0"
+		}
+		k, err := refx509.ParsePKCS8(FixtureKeyDER(fix))
+		if err != nil {
+			panic(err)
+		}
+		return refx509.EncodePem("CERTIFICATE REQUEST", refx509.BuildCSR(k, "request-based entity", nil))
+	}
 	if b.KeyFix != "" {
 		return FixtureKeyPEM(b.KeyFix)
 	}
@@ -73,6 +87,12 @@ func c13Bases() []c13Base {
 	var out []c13Base
 	out = append(out, mk("baseline", nil))
 	out = append(out, mk("root", func(c *refcfg.CertCfg) { c.Issuer = "" }))
+	{
+		// an entity that exists as a certificate request only (no private key in its file)
+		b := mk("request-based", func(c *refcfg.CertCfg) { c.KeyAlg = "P-256" })
+		b.Request = true
+		out = append(out, b)
+	}
 	out = append(out, mk("alias", func(c *refcfg.CertCfg) { c.Alias = "my-entity" }))
 	out = append(out, mk("serial", func(c *refcfg.CertCfg) { c.Serial = refcfg.I64(99) }))
 	// an entity that is expired on purpose (its certificate is expired the moment it is issued)
